@@ -198,7 +198,7 @@ impl Property for FuncProp {
         }
         let mut first = true;
         let mut complete = true;
-        let n = c18::exhaustive(shard, &mut |case, violations, nontrivial| {
+        let _n = c18::exhaustive(shard, &mut |case, violations, nontrivial| {
             let d = case.describe();
             let out = CaseOut {
                 violations,
@@ -213,6 +213,6 @@ impl Property for FuncProp {
             complete &= ok;
             ok
         });
-        Some(Exhaustive { description: format!("full product of retry tag forms {{none, @retry, @retry(n), @retry.after(d), @retry(n).after(d)}} on scenario x rule (or no rule) x feature, x 8 neutral-tag placements x --retry {{-,0,5}} x --retry-after {{-,7ms}} x --retry-tag-filter {{-, x, not x, x and y}} = 28 800 cases; this shard: {n}"), complete })
+        Some(Exhaustive { description: format!("full product of retry tag forms {{none, @retry, @retry(n), @retry.after(d), @retry(n).after(d)}} on scenario x rule (or no rule) x feature, x 8 neutral-tag placements x --retry {{-,0,5}} x --retry-after {{-,7ms}} x --retry-tag-filter {{-, x, not x, x and y}} = 28 800 cases, sharded over the workers"), complete, included: _n, truncated: 0 })
     }
 }
